@@ -1,0 +1,17 @@
+//go:build verif
+
+// Contracts for package custom, checked by /verif/govc (see /verif/DESIGN.md).
+// Comment-only file: it adds nothing to any build.
+package custom
+
+// The certificate-signing callback this package provides for DIServer.SignDeviceCertificate.
+// DIServer.setCredentials passes nil when DI.AppStart carries a null info ("Null info is
+// valid"), so the callback must not dereference it without a test (C10: a peer-chosen
+// message must not panic the manufacturing server).
+//@ func custom.SignDeviceCertificate$1
+//@   params info
+//@   local deviceCAChain = UnOp#11 | UnOp#2 | UnOp#7
+//@   props C10(sweep)
+//@   sweep bounds,make,nilmem
+//@   nilable info
+//@   requires @config len(deviceCAChain) > 0 && deviceCAChain[0] != nil
